@@ -77,6 +77,10 @@ def check_tree(ctx, case):
             if verdict == "mismatch":
                 det.update(info)
                 return ctx.fail((name, ap.arrangement, "value"), case, det)
+            w = E.evaluate_disagrees(res)
+            if w is not None and E.evaluate_disagrees(root) is None:
+                det.update(w)
+                return ctx.fail((name, ap.arrangement, "evaluate-disagrees-with-structure"), case, det)
             if info.get("compared", 0) >= 3 and A.sig(res) != src_sig:
                 ctx.nontriv((case["text"], repr(case.get("pre")), name, idx))
                 if not sampled:
